@@ -167,6 +167,7 @@ def real_constraints(ctx, I):
                      "(>= 65 + max(bound, index limit %d, SIZE_LIMIT)) after a %s token announcing %d bytes" % (name, B, hw, idxmax, hex(ty), size),
                      replay=dict(constraint=name, ty=ty, size=size, sent=sent, step=step, highwater=hw, bound=bound))
     ctx.sample(dict(kind="real-constraint", constraint=name, token=hex(ty), announced=size, highwater=hw, bound=bound))
+    pb_index_tokens(ctx)
     # negotiation phase: more than 4096 bytes without a blank line end the attempt
     import foolscap.negotiate as neg
     for total in (4096, 4099, 4100, 10000):
@@ -195,6 +196,56 @@ def real_constraints(ctx, I):
         if (total >= 4100) != lost or hwn > 4100 + 1000:
             ctx.fail("oracle/negotiation-cap", "negotiation buffer: fed %d bytes without a blank line: connection dropped=%s, high-water %d"
                      % (total, lost, hwn), replay=dict(total=total))
+
+
+def pb_index_tokens(ctx):
+    """index tokens on a real Broker (PBRootUnslicer): the opentype strings of an OPEN are judged by the root, not by the schema.
+    The first is bounded by the longest known opentype, the class name of an OPEN copyable by the longest registered Copyable;
+    exercised where a schema IS in force around it: the error response of a pending call (FailureConstraint)."""
+    from harness import implenv as E
+    from foolscap import call, copyable
+    r = ctx.rng
+    longest = max(len(k) for k in copyable.CopyableRegistry.keys())
+    for where in ("error-copyable-classname", "error-first-index", "top-first-index", "answer-copyable-classname"):
+        for size in (longest + 1, 5000, 10 ** 6, 2 ** 448 - 1):
+            tb, cb = E.broker_pair()
+            cb.addRequest(call.PendingRequest(7, None, None, None))
+            if where == "error-copyable-classname":
+                pre = tok(OPEN, 0) + S(b"error") + enc_int(7) + tok(OPEN, 1) + S(b"copyable")
+            elif where == "answer-copyable-classname":
+                pre = tok(OPEN, 0) + S(b"answer") + enc_int(7) + tok(OPEN, 1) + S(b"copyable")
+            elif where == "error-first-index":
+                pre = tok(OPEN, 0) + S(b"error") + enc_int(7) + tok(OPEN, 1)
+            else:
+                pre = tok(OPEN, 0)
+            hw, esc = 0, None
+            sent = min(size, r.choice([30000, 200000]))
+            step = r.choice([1000, 4096])
+            try:
+                cb.dataReceived(pre)
+                cb.dataReceived(tok(STRING, size))
+                left = sent
+                while left > 0 and not cb.connectionAbandoned:
+                    k = min(step, left)
+                    cb.dataReceived(b"x" * k)
+                    left -= k
+                    hw = max(hw, len(cb.buffer))
+            except Exception as e:
+                esc = "%s: %s" % (type(e).__name__, e)
+            ctx.case(["pb-index", where, size, sent, step], nontrivial=True)
+            ctx.hist("pb_index", where)
+            bound = 65 + max(longest, cb.rootUnslicer.maxIndexLength, 1000)
+            if esc:
+                ctx.fail("oracle/exception-escaped", "exception escaped Broker.dataReceived (%s): %s" % (where, esc), replay=dict(where=where, size=size))
+            elif where != "answer-copyable-classname" and hw >= bound:
+                ctx.fail("oracle/unbounded-buffering/copyable-classname" if "classname" in where else "oracle/unbounded-buffering/index-token",
+                         "a real Broker held %d bytes of an index token announcing %d bytes (%s); index tokens are bounded by the longest opentype "
+                         "(%d) / the longest registered Copyable name (%d)" % (hw, size, where, cb.rootUnslicer.maxIndexLength, longest),
+                         replay=dict(where=where, size=size, sent=sent, step=step, highwater=hw, bound=bound))
+            elif where == "answer-copyable-classname" and hw >= bound:
+                # no result constraint is in force for this request (Any): the class-name bound of the root is the only one
+                ctx.fail("oracle/unbounded-buffering/copyable-classname", "a real Broker held %d bytes of a copyable class-name token announcing %d "
+                         "bytes inside an answer" % (hw, size), replay=dict(where=where, size=size, sent=sent, step=step, highwater=hw, bound=bound))
 
 
 def replay(ctx, data):
